@@ -113,25 +113,25 @@ CHECKS = {
                  "the interleaving is chosen by the seed at statement granularity of the instrumented library (random bursts or PCT-style priorities with 1-3 change points), locks are simulated. "
                  "Non-trivial = more context switches than tasks; distinct = distinct hash of (configuration, (task, source line) switch list)"),
         "time_unit": "scheduler steps (yield points passed), context switches, operations",
-        "real": ["blsThresholdSignatureInspector/Participant and everything below it: Go code of the scratch copy with a yield inserted before every statement and sync.RWMutex replaced by the simulated lock in front of a real one; C layer unmodified (a cgo call is one atomic step)"],
+        "real": ["blsThresholdSignatureInspector/Participant and everything below it: Go code of the scratch copy with a yield inserted before every statement and sync.RWMutex replaced by the simulated lock in front of a real one; C glue files with a yield before every statement (BLST itself runs as atomic steps)"],
         "stub": ["goroutine scheduler (simrt: one task runs at a time, chosen by the seed)", "lock grant order (model lock, writer preference as sync.RWMutex)", "sequential reference model sim/thrmodel used by porcupine"],
-        "assumptions": ["races between two C functions are invisible to the Go race detector", "porcupine results 'Unknown' (30 s timeout) are counted as inconclusive, never reported",
+        "assumptions": ["races between two C functions are invisible to the Go race detector (they are reachable as schedules through the C-level yields and show up in results only)", "porcupine results 'Unknown' (30 s timeout) are counted as inconclusive, never reported",
                         "validity of shares and the group signature are computed sequentially during set-up"],
         "expected_probes": ["histories_linearizable", "lock_contended", "switch_inside_critical_section"],
     },
     "C19": {
         "batches": [
-            {"engine": "roconc", "mode": "", "worker": "conc", "runs": {"quick": 24000, "thorough": 600000}, "budget": {"quick": 75, "thorough": 1500}},
+            {"engine": "roconc", "mode": "", "worker": "conc", "runs": {"quick": 16000, "thorough": 400000}, "budget": {"quick": 75, "thorough": 1500}},
         ],
         "rule": ("each run draws fresh keys/messages, enables a random subset of the operation kinds (swarm) {KMAC128 ComputeHash on one shared instance, BLS hasher ComputeHash, BLS Sign, Verify (valid and invalid), "
                  "BLSVerifyPOP (package-level hasher), SPOCKVerify, VerifyBLSSignatureOneMessage, VerifyBLSSignatureManyMessages, BatchVerifyBLSSignaturesOneMessage, ECDSA Sign and Verify on P-256 and secp256k1 with per-task hashers}, "
                  "2-4 tasks with 1-4 operations each, and the interleaving at statement granularity of the instrumented library. Non-trivial = more context switches than tasks; "
                  "distinct = distinct hash of (enabled operations, (task, source line) switch list)"),
         "time_unit": "scheduler steps (yield points passed), context switches, operations",
-        "real": ["hash/kmac.go, bls.go, bls_multisig.go, spock.go, ecdsa.go and everything below: Go code of the scratch copy with a yield inserted before every statement; C layer, golang.org/x/crypto/sha3, crypto/ecdsa and btcec unmodified (atomic steps)"],
+        "real": ["hash/kmac.go, bls.go, bls_multisig.go, spock.go, ecdsa.go and everything below: Go code of the scratch copy with a yield inserted before every statement; the C glue files (bls_core.c, bls12381_utils.c, bls_thresholdsign_core.c, dkg_core.c) with a yield before every statement too (a task can be descheduled inside a C function); BLST itself, golang.org/x/crypto/sha3, crypto/ecdsa and btcec unmodified (atomic steps)"],
         "stub": ["goroutine scheduler (simrt)"],
         "assumptions": ["PrivateKey.PublicKey() (lazily cached, not in the property's list) is called once during set-up, never concurrently",
-                        "races confined to C code or to uninstrumented dependencies are only visible through changed results or changed argument bytes",
+                        "the Go race detector does not see C memory: races between two C glue functions (static buffers, in-place normalisation) are found through the simulated C-level interleaving and the result / unchanged-argument oracles, not through race reports; code inside BLST and other uninstrumented dependencies runs as atomic steps",
                         "ECDSA signatures are randomised: checked by verification, not by equality"],
         "expected_probes": ["runs_all_results_equal"],
     },
